@@ -15,6 +15,7 @@ import os
 import re
 import shutil
 import subprocess
+import threading
 import sys
 import tempfile
 import time
@@ -41,6 +42,11 @@ def goenv():
     e.update(GOFLAGS="-mod=mod", GOPROXY="off", GOSUMDB="off", GOTOOLCHAIN="local")
     e.setdefault("GOCACHE", os.path.join(WORKROOT, "gocache"))
     return e
+
+
+CHUNK_LINES = 20000
+CHUNK_BYTES = 48 << 20
+_TLC_LOCK = threading.Lock()
 
 
 class Run:
@@ -126,8 +132,9 @@ class Run:
             allow_error=False, label=None):
         """Run TLC on spec/<module>.tla in a scratch copy of the spec directory.
         Returns dict(generated, distinct, out=[parsed json values], raw=stdout, error=str|None)."""
-        self.tlc_n += 1
-        wd = os.path.join(self.dir, "tlc%d" % self.tlc_n)
+        with _TLC_LOCK:
+            self.tlc_n += 1
+            wd = os.path.join(self.dir, "tlc%d" % self.tlc_n)
         shutil.copytree(SPEC, wd)
         cfg = cfg or module + ".cfg"
         workers = workers or NCPU
@@ -213,6 +220,8 @@ class Run:
                 n += 1
         if n == 0:
             raise MachineryError("empty trace for %s" % module)
+        if n > CHUNK_LINES or os.path.getsize(trace_path) > CHUNK_BYTES:
+            return self._validate_chunked(module, trace_path, n, shards, timeout, label, env, heap, cfg, count)
         ev = {"VTRACE": trace_path, "VSHARDS": shards}
         if env:
             ev.update(env)
@@ -228,6 +237,64 @@ class Run:
             self.stages.append({"stage": "trace-validation", "module": module, "events": n, "label": label,
                                 "not_ok": len(verdicts), "wall_s": round(r["wall"], 1)})
         return verdicts, n
+
+
+def _validate_chunked(self, module, trace_path, n, shards, timeout, label, env, heap, cfg, count):
+    """A long trace is judged in pieces (the Json module reads the whole file into memory before the first state):
+    consecutive chunks of at most CHUNK_LINES lines / CHUNK_BYTES bytes, three TLC runs at a time.  Every line is
+    judged exactly once; verdict line numbers are mapped back to the whole trace."""
+    import concurrent.futures
+    chunks = []  # (path, first_line_0based, nlines)
+    base = trace_path + ".chunk"
+    out, k, first, lines, size = None, 0, 0, 0, 0
+    with open(trace_path, "rb") as f:
+        for i, line in enumerate(f):
+            if out is None or lines >= CHUNK_LINES or size + len(line) > CHUNK_BYTES:
+                if out:
+                    out.close()
+                    chunks.append((path, first, lines))
+                k += 1
+                path = "%s%d" % (base, k)
+                out, first, lines, size = open(path, "wb"), i, 0, 0
+            out.write(line)
+            lines += 1
+            size += len(line)
+    out.close()
+    chunks.append((path, first, lines))
+    t0 = time.time()
+
+    def one(ch):
+        path, first, lines = ch
+        ev = {"VTRACE": path, "VSHARDS": shards}
+        if env:
+            ev.update(env)
+        r = self.tlc(module, cfg=cfg, env=ev, timeout=timeout, label="%s %d/%d" % (label or "", chunks.index(ch) + 1, len(chunks)),
+                     heap="8g", workers=max(4, NCPU // 2))
+        done = [o for o in r["out"] if isinstance(o, dict) and o.get("k") == "DONE"]
+        if not done or done[-1]["distinct"] != done[-1]["want"]:
+            raise MachineryError("trace %s not fully consumed by %s: %s" % (path, module, done[-1:] or r["raw"][-1500:]))
+        vs = [o for o in r["out"] if isinstance(o, dict) and o.get("k") == "V"]
+        for v in vs:
+            v["l"] += first
+        os.unlink(path)
+        return vs, r["distinct"], r["generated"]
+
+    verdicts, dist, gen = [], 0, 0
+    with concurrent.futures.ThreadPoolExecutor(max_workers=3) as ex:
+        for vs, d, g in ex.map(one, chunks):
+            verdicts += vs
+            dist += d
+            gen += g
+    if count:
+        self.states += dist
+        self.transitions += gen
+        self.traces += n
+        self.stages.append({"stage": "trace-validation", "module": module, "events": n, "label": label, "chunks": len(chunks),
+                            "not_ok": len(verdicts), "wall_s": round(time.time() - t0, 1)})
+    return verdicts, n
+
+
+Run._validate_chunked = _validate_chunked
 
 
 def load_events(path):
